@@ -284,7 +284,8 @@ Qed.
 (* ---------------- the invariant between packets ---------------- *)
 Record OAlive (st : rstate) (acc : list vitem) : Prop := {
   o_suffix : exists done, L0 = done ++ r_old st
-             /\ (forall s, In s done -> exists it0, In it0 acc /\ compare_path (st_path s) (vpath it0) <> Gt);
+             /\ (r_closed st = false ->
+                 forall s, In s done -> exists it0, In it0 acc /\ compare_path (st_path s) (vpath it0) <> Gt);
   o_gt : forall s it0, In s (r_old st) -> In it0 acc -> compare_path (vpath it0) (st_path s) = Lt;
   o_alive : r_closed st = false ->
        prist (r_fs st) (r_rmdir st) (r_old st) /\ rm_ok (r_rmdir st) acc (r_old st)
@@ -557,7 +558,7 @@ Proof.
   - (* the old listing *)
     intros L1. constructor.
     + exists done. rewrite F3. cbn [r_old st0 set_diff]. split; [apply Jv|].
-      intros s Hs. exists it. split; [apply it_in_acc'|]. cbn [vpath it item_of]. fold p.
+      intros _ s Hs. exists it. split; [apply it_in_acc'|]. cbn [vpath it item_of]. fold p.
       rewrite (j_done _ _ _ Jv s Hs). discriminate.
     + rewrite F3. cbn [r_old st0 set_diff]. intros s it0 Hs Hin0. unfold acc' in Hin0.
       apply in_app_or in Hin0. destruct Hin0 as [Hin0|[<-|[]]]; [apply (j_gt _ _ _ Jv s it0 Hs Hin0)|].
@@ -636,7 +637,7 @@ Proof.
             (live st' = true -> prist (r_fs st') rm rest) -> OInv st' acc').
   { intros st' E1 E2 Hp L. constructor.
     - exists (done ++ [f1]). rewrite E1. split; [rewrite (j_split _ _ _ Jv), <- app_assoc; reflexivity|].
-      intros s Hs. exists it. split; [apply it_in_acc'|]. cbn [vpath it item_of]. fold p.
+      intros _ s Hs. exists it. split; [apply it_in_acc'|]. cbn [vpath it item_of]. fold p.
       apply in_app_or in Hs. destruct Hs as [Hs|[<-|[]]].
       + rewrite (j_done _ _ _ Jv s Hs). discriminate.
       + rewrite Ep, compare_path_refl. discriminate.
@@ -781,5 +782,179 @@ Proof.
 Qed.
 
 End Feed.
+
+
+(* ================= the end of the listing: whatever is still unread is deleted ================= *)
+Section Flush.
+Variables (stin : rstate) (acc : list vitem) (idx : nat).
+Hypothesis Hacc : Forall (fun it0 => ok_path (vpath it0) = true /\ cleanp (vpath it0)) acc.
+
+Definition rmF (rm : bytes) (old : list stat) : Prop :=
+  rm = [] \/ exists X, rm = X ++ [sep] /\ ok_path X = true /\ (forall s, In s old -> compare_path X (st_path s) = Lt).
+
+Record FJ (st : rstate) (old done : list stat) : Prop := {
+  f_base : GB st acc;
+  f_vstk : r_vstk st = r_vstk stin;
+  f_seen : r_seen st = r_seen stin;
+  f_closed : r_closed st = true;
+  f_old : r_old st = old;
+  f_split : L0 = done ++ old;
+  f_gt : forall s it0, In s old -> In it0 acc -> compare_path (vpath it0) (st_path s) = Lt;
+  f_live : live st = true ->
+     (forall j t, reach (r_fs st) j -> tmpname tmps0 t -> blookup t (ents (r_fs st) j) = None)
+     /\ (forall q, In q (accpaths acc) -> safe (r_fs stin) D (comps q) -> safe (r_fs st) D (comps q))
+     /\ prist (r_fs st) (r_rmdir st) old
+     /\ rmF (r_rmdir st) old
+}.
+
+Lemma rmF_rm_ok rm old : rmF rm old -> forall f1 rest, old = f1 :: rest ->
+  StronglySorted plt (f1 :: rest) -> (forall s, In s (f1 :: rest) -> ok_path (st_path s) = true) ->
+  suppressed rm (st_path f1) = false -> forall s, In s rest -> suppressed rm (st_path s) = false.
+Proof.
+  intros [->|(X & -> & HX & Hgt)] f1 rest -> HS Hok Hf1 s Hs; [reflexivity|].
+  destruct (suppressed (X ++ [sep]) (st_path s)) eqn:E; auto. exfalso.
+  apply suppressed_below in E.
+  assert (H1 : compare_path X (st_path f1) = Lt) by (apply Hgt; left; reflexivity).
+  assert (H2 : compare_path (st_path f1) (st_path s) = Lt) by (apply (SS_cons_lt plt f1 rest s HS Hs)).
+  pose proof (between_below X (st_path f1) (st_path s) H1 H2 E) as Hb.
+  rewrite (below_suppressed X (st_path f1) HX (Hok f1 (or_introl eq_refl)) Hb) in Hf1. discriminate.
+Qed.
+
+Lemma facc_clean q : In q (accpaths acc) -> ok_path q = true /\ cleanp q.
+Proof. intros Hq. apply (In_accpaths_clean tmps0 acc q Hacc Hq). Qed.
+
+Lemma fold_in st old done s : FJ st old done -> In s old -> In s L0.
+Proof. intros Fv Hs. rewrite (f_split _ _ _ Fv). apply in_or_app. right. exact Hs. Qed.
+
+Lemma fold_sorted st old done : FJ st old done -> StronglySorted plt old.
+Proof. intros Fv. apply (SS_app_r plt done old). rewrite <- (f_split _ _ _ Fv). apply (of_sorted D f0 L0 OF). Qed.
+
+Lemma flush_skip st f1 rest done :
+  FJ st (f1 :: rest) done -> FJ (set_diff st rest (r_rmdir st)) rest (done ++ [f1]).
+Proof.
+  intros Fv. pose proof (f_base _ _ _ Fv) as G. constructor; cbn [r_vstk r_seen r_closed r_old set_diff r_fs r_rmdir].
+  - apply (GBase_quiet D f0 tmps0 st _ acc b0 G); try (unfold b0; lia); simpl.
+    + apply step_refl; [apply (g_wf D f0 tmps0 st acc G)|apply (g_next D f0 tmps0 st acc G)].
+    + repeat split.
+    + apply G.
+  - apply Fv.
+  - apply Fv.
+  - apply Fv.
+  - reflexivity.
+  - rewrite (f_split _ _ _ Fv), <- app_assoc. reflexivity.
+  - intros s it0 Hs. apply (f_gt _ _ _ Fv). right. exact Hs.
+  - intros L. destruct (f_live _ _ _ Fv L) as (A1 & A2 & A3 & A4). split; auto. split; auto. split.
+    + intros s Hs. apply A3. right. exact Hs.
+    + destruct A4 as [->|(X & E & B1 & B2)]; [left; reflexivity|right].
+      exists X. repeat split; auto. intros s Hs. apply B2. right. exact Hs.
+Qed.
+
+Lemma flush_delete st f1 rest done :
+  FJ st (f1 :: rest) done -> suppressed (r_rmdir st) (st_path f1) = false ->
+  FJ (apply_change c idx 2 (st_path f1) f1 (set_diff st rest (rm_prefix_of f1))) rest (done ++ [f1]).
+Proof.
+  intros Fv Hsup. pose proof (f_base _ _ _ Fv) as G.
+  set (q1 := st_path f1) in *. set (st0 := set_diff st rest (rm_prefix_of f1)).
+  assert (Hin1 : In f1 L0) by (apply (fold_in st (f1 :: rest) done f1 Fv); left; reflexivity).
+  destruct (old_entry f1 Hin1) as (Hok1 & Hcl1 & i1 & Hw1 & Hd1 & Hex1 & _).
+  assert (G0 : GB st0 acc).
+  { apply (GBase_quiet D f0 tmps0 st st0 acc b0 G); try (unfold b0; lia); simpl.
+    - apply step_refl; [apply (g_wf D f0 tmps0 st acc G)|apply (g_next D f0 tmps0 st acc G)].
+    - repeat split.
+    - apply G. }
+  assert (HSS : StronglySorted plt (f1 :: rest)) by (apply (fold_sorted st (f1 :: rest) done Fv)).
+  assert (Hokall : forall s, In s (f1 :: rest) -> ok_path (st_path s) = true).
+  { intros s Hs. apply (old_entry s (fold_in st _ done s Fv Hs)). }
+  assert (Hpre : live st0 = true -> change_pre D tmps0 2 st0 q1 f1 acc).
+  { intros L. destruct (f_live _ _ _ Fv L) as (A1 & A2 & A3 & A4).
+    unfold change_pre. cbn [r_fs st0 set_diff r_pipes].
+    split; [exact Hok1|]. split; [exact Hcl1|]. split.
+    - pose proof (A3 f1 (or_introl eq_refl) Hsup) as Hp. rewrite Hw1 in Hp.
+      apply (rwalk_prefix_safe (r_fs st) (comps q1) D i1 Hp).
+    - split; [exact A1|]. split; [discriminate|]. split; [|discriminate].
+      intros id pp Hin. apply cmp_lt_not_prefix.
+      destruct (g_pipes D f0 tmps0 st acc G id pp Hin) as [Hq _]. unfold accpaths in Hq. apply in_map_iff in Hq.
+      destruct Hq as (x & Ex & Hx). rewrite <- Ex. apply (f_gt _ _ _ Fv f1 x (or_introl eq_refl) Hx). }
+  pose proof (apply_change_inv D root f0 tmps0 tmp_ok idx 2 q1 f1 st0 acc G0 Hpre) as X.
+  change {| c_root := root; c_cwd := D |} with c in X. cbv zeta in X.
+  set (st1 := apply_change c idx 2 q1 f1 st0) in *.
+  destruct X as (G1 & (F1 & F2 & F3 & F4 & F5 & _) & Hpost).
+  constructor.
+  - exact G1.
+  - rewrite F1. apply Fv.
+  - rewrite F2. apply Fv.
+  - rewrite F5. apply Fv.
+  - rewrite F3. reflexivity.
+  - rewrite (f_split _ _ _ Fv), <- app_assoc. reflexivity.
+  - intros s it0 Hs. apply (f_gt _ _ _ Fv). right. exact Hs.
+  - intros L1. destruct (Hpost L1) as (L0' & P1 & P2 & _).
+    destruct (f_live _ _ _ Fv L0') as (A1 & A2 & A3 & A4).
+    split; [exact P1|]. split; [|split].
+    + intros q Hq Hs. refine (proj1 (P2 (comps q) _ _) _).
+      * apply cmp_lt_not_prefix. unfold accpaths in Hq. apply in_map_iff in Hq. destruct Hq as (x & <- & Hx).
+        apply (f_gt _ _ _ Fv f1 x (or_introl eq_refl) Hx).
+      * apply (facc_clean q Hq).
+      * apply (A2 q Hq Hs).
+    + rewrite F4. cbn [r_rmdir st0 set_diff]. intros s Hs Hsup'.
+      assert (Hins : In s L0) by (apply (fold_in st _ done s Fv); right; exact Hs).
+      destruct (old_entry s Hins) as (Hoks & Hcls & i' & Hws & _).
+      assert (Hbefore : suppressed (r_rmdir st) (st_path s) = false).
+      { apply (rmF_rm_ok (r_rmdir st) (f1 :: rest) A4 f1 rest eq_refl HSS Hokall Hsup s Hs). }
+      rewrite <- (A3 s (or_intror Hs) Hbefore).
+      refine (proj2 (P2 (comps (st_path s)) _ Hcls)).
+      intros Hpfx.
+      assert (Hne : q1 <> st_path s).
+      { apply cmp_lt_ne. apply (SS_cons_lt plt f1 rest s HSS Hs). }
+      destruct (prefix_proper_below q1 (st_path s) Hok1 Hpfx Hne) as (y & Hy & Ey).
+      assert (Hdir1 : st_is_dir f1 = true).
+      { rewrite Ey in Hws. destruct (rwalk_app_dir f0 D (comps q1) y i' Hws Hy) as (k & Hk & Hkd).
+        unfold q1 in Hk. rewrite Hw1 in Hk. inversion Hk; subst k. rewrite Hd1. exact Hkd. }
+      unfold rm_prefix_of in Hsup'. rewrite Hdir1 in Hsup'. fold q1 in Hsup'.
+      rewrite (below_suppressed q1 (st_path s) Hok1 Hoks) in Hsup'; [discriminate|].
+      exists y. split; auto.
+    + rewrite F4. cbn [r_rmdir st0 set_diff]. unfold rm_prefix_of. destruct (st_is_dir f1); [right|left; reflexivity].
+      exists q1. split; [reflexivity|]. split; [exact Hok1|].
+      intros s Hs. apply (SS_cons_lt plt f1 rest s HSS Hs).
+Qed.
+
+
+Hypothesis Hstk0 : forall ds l, In (ds, l) (r_vstk stin) ->
+  pcomps ds = [] \/ exists q, In q (accpaths acc) /\ comps q = pcomps ds /\ safe (r_fs stin) D (comps q).
+Hypothesis Hsn0 : forall q, In q (r_seen stin) -> In q (accpaths acc) /\ safe (r_fs stin) D (comps q).
+
+Lemma flush_done st old done : FJ st old done -> (live st = true -> old = []) -> NInv st acc.
+Proof.
+  intros Fv Hnil. split.
+  - split; [apply Fv|]. intros L. destruct (f_live _ _ _ Fv L) as (A1 & A2 & _). constructor.
+    + exact A1.
+    + intros ds l Hin. rewrite (f_vstk _ _ _ Fv) in Hin. destruct (Hstk0 ds l Hin) as [E|(q & Hq & Eq & Hs)].
+      * rewrite E. exact I.
+      * rewrite <- Eq. apply A2; auto.
+    + intros q Hin. rewrite (f_seen _ _ _ Fv) in Hin. destruct (Hsn0 q Hin) as [Hq Hs]. apply A2; auto.
+  - intros L. pose proof (f_closed _ _ _ Fv) as Hc. constructor.
+    + exists done. rewrite (f_old _ _ _ Fv). split; [apply Fv|]. intros H. congruence.
+    + rewrite (f_old _ _ _ Fv), (Hnil L). intros s it0 [].
+    + intros H. congruence.
+Qed.
+
+Theorem diff_flush_inv : forall old st done, FJ st old done -> NInv (diff_flush c idx old st) acc.
+Proof.
+  induction old as [|f1 rest IH]; intros st done Fv; cbn [diff_flush].
+  - apply (flush_done _ [] done); [|auto].
+    pose proof (f_base _ _ _ Fv) as G. constructor; cbn [r_vstk r_seen r_closed r_old set_diff r_fs r_rmdir]; try apply Fv.
+    + apply (GBase_quiet D f0 tmps0 st _ acc b0 G); try (unfold b0; lia); simpl.
+      * apply step_refl; [apply (g_wf D f0 tmps0 st acc G)|apply (g_next D f0 tmps0 st acc G)].
+      * repeat split.
+      * apply G.
+    + reflexivity.
+  - destruct (suppressed (r_rmdir st) (st_path f1)) eqn:Es.
+    + apply (IH _ (done ++ [f1])). apply flush_skip. exact Fv.
+    + pose proof (flush_delete st f1 rest done Fv Es) as F1.
+      destruct (live (apply_change c idx 2 (st_path f1) f1 (set_diff st rest (rm_prefix_of f1)))) eqn:L1.
+      * apply (IH _ (done ++ [f1]) F1).
+      * apply (flush_done _ rest (done ++ [f1]) F1). intros H. congruence.
+Qed.
+
+End Flush.
 
 End RecvOld.
